@@ -377,6 +377,14 @@ func runCase(r *mon.Rec, famName string, idx int) {
 		// the message is the handler's own: before it returns it writes into it (a handler that builds its reply in
 		// place).  If two handlers were given one message, the other one sees that at entry or while it holds it.
 		defer scribble()
+		defer func() { // ... and into the peer address it was handed (a handler that fills in the address it will answer to)
+			if up, ok := peer.(*net.UDPAddr); ok && up != nil {
+				// (fields are assigned, the address octets are not written into: server4 hands out net.IPv4bcast itself,
+				// and the statement does not say whose memory the peer's octets are)
+				up.Port ^= 0x5555
+				up.IP = net.IP{192, 0, 2, 10}
+			}
+		}()
 		h := &hrec{nonce: nonce, entry: snap(), encIn: string(enc())}
 		if peer != nil {
 			h.peer = peer.String()
@@ -509,7 +517,9 @@ func runCase(r *mon.Rec, famName string, idx int) {
 			case <-abort:
 			}
 		}()
-		ok := conn.InjectOr(sconn.Datagram{B: append([]byte{}, it.b...), From: it.from, Nonce: it.nonce, Class: it.class}, abort)
+		// like a socket, the scripted conn hands out an address object of its own for every datagram read
+		from := &net.UDPAddr{IP: append(net.IP(nil), it.from.IP...), Port: it.from.Port, Zone: it.from.Zone}
+		ok := conn.InjectOr(sconn.Datagram{B: append([]byte{}, it.b...), From: from, Nonce: it.nonce, Class: it.class}, abort)
 		tm.Stop()
 		if !ok {
 			select {
